@@ -128,4 +128,16 @@ theorem accepted_route_is_well_formed_partial (env : TypeEnv) (emb : List String
         | false => rw [he] at hexp; simp [hasError, err] at hexp
       · exact accepted_is_wellLinked_partial _ m (linkValidate_nil_of_noerr _ m hlink) hnd hAlias hF2
 
+
+/-- non-vacuity: the route of the `wellLinkedB` example IS accepted by the whole receiver validator (prefix parameter,
+    aliased and un-aliased @Path, a query parameter, the request context; enforce flag on, secured by the controller) -/
+example :
+    let m : Method := { name := "Get", annots := [⟨"Method", "GET", [], ""⟩, ⟨"Route", "/{id}/x/{k}", [], ""⟩,
+                          ⟨"Path", "tenant", [], ""⟩, ⟨"Path", "id", [], ""⟩, ⟨"Path", "key", [("name", .str, "k")], ""⟩,
+                          ⟨"Query", "q", [], ""⟩],
+                        params := [⟨"ctx", "context.Context"⟩, ⟨"tenant", "string"⟩, ⟨"id", "int"⟩, ⟨"key", "string"⟩, ⟨"q", "*string"⟩],
+                        results := ["error"] }
+    let ctrl : List Annot := [⟨"Tag", "T", [], ""⟩, ⟨"Route", "/t/{tenant}", [], ""⟩, ⟨"Security", "sec0", [], ""⟩]
+    (validateReceiver {} [] true false ctrl m).map hasError = some false := by decide +kernel
+
 end Gleece.Validate
